@@ -9,19 +9,69 @@ def generate(rng, tier):
     n = 3000 if tier == "quick" else 60000
     cases = []
     nm = 0
+    nv = 0
     for _ in range(n):
         k = rng.randint(1, 6)
         pts = sorted(rng.sample(PTS, rng.randint(3, 8)))
-        if rng.random() < 0.6:
+        r = rng.random()
+        if r < 0.12:
+            st = vote_spec(rng, pts); nv += 1
+        elif r < 0.64:
             st, _ = complete_spec(rng, k, pts)
         else:
             st = malformed(rng, k, pts); nm += 1
         probes = sorted(set(pts + [p + 1 for p in pts if p < MAXC] + [p - 1 for p in pts if p > 0]))
         st += ["build", "nextall %d %s" % (len(probes), " ".join(map(str, probes))), "finals", "edges"]
         cases.append(" ; ".join(st))
-    info = {"rule": "builder call sequences over 1-6 states: complete deterministic specs (defaults everywhere, full coverage without defaults, mixed, shuffled call order, arbitrary state names, unreachable parts) and a malformed stream (missing default with a gap, overlapping labels with different / equal successors, label overlapping a transition into the default target, default plus full coverage, incomplete state that only a majority promotion would complete); observed: Ok/Err kind, next on every state x critical character, finals, edges; non-trivial = at least 2 states and one explicit transition",
-            "distribution": {"cases": n, "malformed": nm}}
+    info = {"rule": "builder call sequences over 1-6 states: complete deterministic specs (defaults everywhere, full coverage without defaults, mixed, shuffled call order, arbitrary state names, unreachable parts) and a malformed stream (missing default with a gap, overlapping labels with different / equal successors, label overlapping a transition into the default target, default plus full coverage, incomplete state that only a majority promotion would complete) and a majority-vote stress stream (a state without default whose 4-9 labels cover the alphabet, successors drawn as all-distinct / one repeated / exactly half / half plus one / alternating multisets, so that the Boyer-Moore candidate, the count and the threshold len/2 are all exercised on both sides); observed: Ok/Err kind, next on every state x critical character, finals, edges; non-trivial = at least 2 states and one explicit transition",
+            "distribution": {"cases": n, "malformed": nm, "majority_vote_stress": nv}}
     return cases, info
+
+
+def vote_spec(rng, pts):
+    """state 0 has no default and m labels that cover [0, MAXC]; the multiset of successors decides whether
+    cleanup() promotes a default (count >= len/2) and which transitions it drops"""
+    m = rng.randint(4, 9)
+    nst = rng.randint(2, m + 1)
+    cand = sorted(set(p for p in pts if 0 < p <= MAXC))
+    extra = [p for p in (1, 2, 3, 5, 8, 13, 21, 34, 55, 89, 144, 233, 1000, 5000, 70000, 196000) if p not in cand]
+    rng.shuffle(extra)
+    cuts = sorted(set([0] + cand + extra))[:]
+    rng.shuffle(cuts)
+    cuts = sorted(set([0] + [c for c in cuts if c != 0][:m - 1]))
+    m = len(cuts)
+    kind = rng.choice(["distinct", "one_twice", "half", "half_plus", "alternating", "random"])
+    others = list(range(1, nst)) or [0]
+    if kind == "distinct":
+        tg = [(i % max(1, nst - 1)) + 1 if nst > 1 else 0 for i in range(m)]
+        if nst - 1 < m:
+            tg = [rng.choice(others) for _ in range(m)]
+            tg[:len(others)] = others
+    elif kind == "one_twice":
+        tg = [others[i % len(others)] for i in range(m)]
+        tg[-1] = tg[0]
+    elif kind == "half":
+        tg = [others[0]] * (m // 2) + [others[(i % max(1, len(others) - 1)) + 1] if len(others) > 1 else others[0] for i in range(m - m // 2)]
+    elif kind == "half_plus":
+        tg = [others[0]] * (m // 2 + 1) + [others[(i % max(1, len(others) - 1)) + 1] if len(others) > 1 else others[0] for i in range(m - m // 2 - 1)]
+    elif kind == "alternating":
+        tg = [others[i % 2 % len(others)] for i in range(m)]
+    else:
+        tg = [rng.choice(others) for _ in range(m)]
+    if rng.random() < 0.5:
+        rng.shuffle(tg)
+    names = [rng.randint(0, 50) * 2 + 1000 * i for i in range(nst)] if rng.random() < 0.5 else list(range(nst))
+    ops = []
+    for i, a in enumerate(cuts):
+        b = (cuts[i + 1] - 1) if i + 1 < len(cuts) else MAXC
+        ops.append("add %d %d %d %d" % (names[0], a, b, names[tg[i]]))
+    for s in range(1, nst):
+        ops.append("def %d %d" % (names[s], names[rng.randrange(nst)]))
+        if rng.random() < 0.3:
+            ops.append("fin %d" % names[s])
+    if rng.random() < 0.4:
+        rng.shuffle(ops)
+    return ["new %d" % names[0]] + ops
 
 
 def nontrivial(case):
